@@ -1,5 +1,5 @@
 """C01 -- the Python encoder emits exactly the specified bit layout."""
-from .. import common, drive, gen, tlc
+from .. import common, drive, gen, tlc, usmall
 from ..report import Report
 from . import designlevel, pywire
 
@@ -41,6 +41,12 @@ def main(tier, replay=None):
             cases.append(c)
             for f in gen.features(t):
                 rep.feature(f)
+        # --- direction spec -> code: the complete universe U_small with its basis values, written by TLC
+        for k, prog, vals in usmall.programs(rep, tier, "the Python encoder"):
+            c = pywire.PyCase("c01-usmall-%d" % k, prog, vals)
+            pywire.run_case(c, scratch, want=("encode", "size"), recorder=None)
+            cases.append(c)
+            rep.feature("u_small")
     # --- step-level binding (informational, never a verdict): the recorded chunk / enter / leave
     # sequence of real encode() and decode() calls is replayed through the ACTIONS of Codec.tla
     step_info = {"available": rec.available}
